@@ -141,6 +141,13 @@ def same(a, b, path="obj", seen=None, strict_order=True):
         if sp.issparse(a):
             if a.format != b.format or a.shape != b.shape or a.dtype != b.dtype:
                 return f"{path}: sparse {a.format}/{a.shape}/{a.dtype} vs {b.format}/{b.shape}/{b.dtype}"
+            # the storage arrays themselves: products accumulate in storage order, so a re-sorted or de-duplicated copy is
+            # not "the same" for bitwise-identical outputs
+            for attr in ("data", "indices", "indptr", "row", "col", "offsets"):
+                if hasattr(a, attr) and hasattr(b, attr):
+                    d = same(np.asarray(getattr(a, attr)), np.asarray(getattr(b, attr)), f"{path}.{attr}", seen)
+                    if d:
+                        return d
             ca, cb = a.tocoo(), b.tocoo()
             return same(ca.toarray(), cb.toarray(), path + ".toarray()", seen)
     except ImportError:
